@@ -73,6 +73,61 @@ func simTree(cs *compState) {
 		if err := seed.CheckConsistency(); err != nil {
 			continue // not a tree the model itself considers consistent: outside the statement
 		}
+		// a refused AddChild changes nothing: try the refusals the model documents on a snapshot of (status, #children, parent)
+		{
+			type snap struct {
+				st     models.ItemState
+				nc     int
+				parent *models.Item
+			}
+			take := func() map[*models.Item]snap {
+				m := map[*models.Item]snap{}
+				seed.Traverse(func(nd *models.Item) { m[nd] = snap{nd.GetStatus(), len(nd.GetChildren()), nd.GetParent()} })
+				return m
+			}
+			var redirTargets []*models.Item
+			seed.Traverse(func(nd *models.Item) {
+				if nd.IsRedirection() {
+					redirTargets = append(redirTargets, nd)
+				}
+			})
+			for tries := 0; tries < 3; tries++ {
+				victim := nodes[cs.Draw(len(nodes))]
+				before := take()
+				var err error
+				what := ""
+				switch cs.Draw(3) {
+				case 0:
+					err, what = victim.AddChild(nil, models.ItemGotChildren), "a nil child"
+				case 1:
+					nu := &models.URL{Raw: "http://t.example/never"}
+					nu.Parse()
+					err, what = victim.AddChild(models.NewItem("never", nu, ""), models.ItemArchived), "a child with an invalid origin state"
+				default:
+					if len(redirTargets) == 0 {
+						continue
+					}
+					err, what = victim.AddChild(redirTargets[cs.Draw(len(redirTargets))], models.ItemGotChildren), "a node that already is a redirect target, as an asset"
+				}
+				if err == nil {
+					if what != "a node that already is a redirect target, as an asset" {
+						k.Violate("C11", "well-formed", "invalid-addchild-accepted", fmt.Sprintf("tree %d: AddChild accepted %s", t, what))
+					}
+					break // the tree changed legitimately or not: stop probing this one
+				}
+				after := take()
+				for nd, b := range before {
+					if a := after[nd]; a != b {
+						k.Violate("C11", "well-formed", "refused-addchild-changed-the-tree", fmt.Sprintf("tree %d: AddChild of %s on %s was refused (%v) but %s went from status %s / %d children to %s / %d", t, what, victim.GetID(), err, nd.GetID(), b.st, b.nc, a.st, a.nc))
+						break
+					}
+				}
+				k.Probe("c11-refused-addchild-checked")
+			}
+			if seed.CheckConsistency() != nil {
+				continue
+			}
+		}
 		before := map[string]int{}
 		seed.Traverse(func(nd *models.Item) {
 			if nd.GetParent() != nil {
